@@ -76,6 +76,5 @@ void h_ct_scalar_split_lambda(void) {
     INPUT(sec, l1); INPUT(sec, l2);
     CT_CANARY()
     CT2("C06 scalar_split_lambda: trace independent of operand", secp256k1_scalar_split_lambda(&l1.r, &l1.r2, &l1.a), secp256k1_scalar_split_lambda(&l2.r, &l2.r2, &l2.a));
-    CT2("C06 scalar_split_128: trace independent of operand", secp256k1_scalar_split_128(&l1.r, &l1.r2, &l1.a), secp256k1_scalar_split_128(&l2.r, &l2.r2, &l2.a));
     if (l1.a.d[0] != l2.a.d[0]) REACH("split_lambda on different operands");
 }
